@@ -11,6 +11,7 @@
 #include "common/vh.hpp"
 #include "serial_codec.hpp"
 #include "serial_objects.hpp"
+#include "serial_probes.hpp"
 
 #include <filesystem>
 #include <iostream>
@@ -88,6 +89,109 @@ template <class T> void propType(Ctx& c, int reps) {
     }
 }
 
+// ---- pointer layer: types holding shared_ptr (model: Model/SerialGraph.lean) ------------------------
+template <class T> std::string showLabelled(const T& v) { labels() = Labels{}; return Codec<T>::show(v, true); }
+
+template <class T> void corrGraph(Ctx& c, int reps) {
+    const std::string ty = Codec<T>::ty();
+    for (int i = 0; i < reps; ++i) {
+        GenCfg cfg; cfg.maxLen = (i % 7 == 6) ? 3 * c.maxLen : c.maxLen;
+        newGraphEpoch();
+        {
+            T x = Codec<T>::gen(c.rng, cfg);
+            Packer packer; Ser ser(packer);
+            ser.pack(x);
+            const std::string hex = ser.buffer().empty() ? "-" : ser.hex();
+            c.sink->emit("serial.gpack " + ty + " " + Codec<T>::show(x, false),
+                         "wt=1 " + std::to_string(ser.buffer().size()) + " " + hex);
+            if (ser.position() != ser.buffer().size()) {      // PACKSIZE != PACK: the buffer is not a packed object, unpacking it is UB
+                c.sink->emit("serial.gunpack " + ty + " " + hex, "pack-position " + std::to_string(ser.position()));
+                continue;
+            }
+            {
+                T y{};
+                ser.unpack(y);
+                const std::string sy = showLabelled(y);
+                c.sink->emit("serial.gunpack " + ty + " " + hex, "ok " + sy + " " + std::to_string(ser.position()));
+                c.sink->count("graph.pointers", static_cast<long>(std::count(sy.begin(), sy.end(), '&')));   // non-null pointers
+                c.sink->count("graph.objects", static_cast<long>(labels().of.size()));                      // distinct pointees
+            }
+            {
+                T z = Codec<T>::gen(c.rng, cfg);       // a stale target; may share pointees with x (same pools)
+                const std::string before = Codec<T>::show(z, false);
+                ser.unpack(z);
+                c.sink->emit("serial.gunpackinto " + ty + " " + before + " " + hex,
+                             "ok " + showLabelled(z) + " " + std::to_string(ser.position()));
+            }
+            c.sink->count("type." + ty);
+            c.sink->count("values");
+            c.sink->count("graph.values");
+            c.sink->count("bytes", static_cast<long>(ser.buffer().size()));
+        }
+        newGraphEpoch();
+    }
+}
+
+// the property's statement on pointer-holding values: the aliasing graph (labels) comes back, position
+// = size, re-pack has the same length, and the re-packed buffer unpacks to the same graph again
+template <class T> void propGraph(Ctx& c, int reps) {
+    const std::string ty = Codec<T>::ty();
+    for (int i = 0; i < reps; ++i) {
+        GenCfg cfg; cfg.maxLen = (i % 5 == 4) ? 4 * c.maxLen : c.maxLen;
+        newGraphEpoch();
+        {
+            T x = Codec<T>::gen(c.rng, cfg);
+            Packer packer; Ser ser(packer);
+            ser.pack(x);
+            const std::vector<char> buf = ser.buffer();
+            const size_t posPack = ser.position();
+            const std::string key = "combinator." + ty;
+            if (posPack != buf.size()) {     // not a packed object: do not unpack it (UB)
+                c.plog->fail(key, "PACK left position " + std::to_string(posPack) + " in a buffer of " + std::to_string(buf.size()) + " (PACKSIZE disagrees with PACK) value=" + showLabelled(x));
+                c.pstats["combinator"]++; c.pstats["combinator.graph"]++;
+                continue;
+            }
+            T y{};
+            ser.unpack(y);
+            const size_t posUnpack = ser.position();
+            const std::string sx = showLabelled(x), sy = showLabelled(y);
+            if (posUnpack != buf.size()) c.plog->fail(key, "UNPACK consumed " + std::to_string(posUnpack) + " of " + std::to_string(buf.size()) + " bytes value=" + sx);
+            else if (sx != sy) c.plog->fail(key, "object graph differs after round trip (labels = pointer identity): packed " + sx + " unpacked " + sy);
+            else {
+                Packer p2; Ser ser2(p2);
+                ser2.pack(y);
+                T z{};
+                if (ser2.buffer().size() != buf.size()) c.plog->fail(key, "re-packed length " + std::to_string(ser2.buffer().size()) + " != " + std::to_string(buf.size()) + " value=" + sx);
+                else {
+                    ser2.unpack(z);
+                    const std::string sz = showLabelled(z);
+                    if (ser2.position() != buf.size()) c.plog->fail(key, "UNPACK of the re-packed buffer consumed " + std::to_string(ser2.position()) + " of " + std::to_string(buf.size()) + " value=" + sx);
+                    else if (sz != sx) c.plog->fail(key, "re-packed buffer means another graph: " + sz + " vs " + sx);
+                    else c.plog->ok();
+                }
+            }
+            c.pstats["combinator"]++;
+            c.pstats["combinator.graph"]++;
+        }
+        newGraphEpoch();
+    }
+}
+
+#define SERIAL_GRAPH_MENU(X) \
+    X(std::shared_ptr<int>) X(std::shared_ptr<std::string>) X(std::shared_ptr<Rec>) X(std::shared_ptr<std::shared_ptr<int>>) \
+    X(std::vector<std::shared_ptr<std::string>>) X(std::pair<std::shared_ptr<int>, std::shared_ptr<int>>) \
+    X(std::optional<std::shared_ptr<std::string>>) X(std::vector<std::optional<std::shared_ptr<double>>>) \
+    X(std::map<std::string, std::shared_ptr<Rec>>) X(std::unordered_map<std::string, std::shared_ptr<int>>) \
+    X(std::tuple<int, std::shared_ptr<Rec>, std::vector<std::shared_ptr<Rec>>>) \
+    X(std::shared_ptr<std::vector<std::shared_ptr<int>>>) X(std::map<int, std::vector<std::shared_ptr<std::string>>>) \
+    X(WellLike) X(std::shared_ptr<WellLike>) X(std::vector<WellLike>) X(std::unordered_map<std::string, std::shared_ptr<WellLike>>) \
+    X(StepLike) X(std::vector<StepLike>) X(std::vector<std::shared_ptr<StepLike>>) \
+    X(Opm::ScheduleState::ptr_member<Rec>) X(std::vector<Opm::ScheduleState::ptr_member<std::string>>) \
+    X(Opm::ScheduleState::map_member<std::string, NamedRec>) X(std::vector<Opm::ScheduleState::map_member<std::string, NamedRec>>) \
+    X(RealStep) X(std::vector<RealStep>) \
+    X(std::unique_ptr<std::shared_ptr<int>>) X(std::vector<std::unique_ptr<WellLike>>) X(std::array<std::shared_ptr<std::string>, 3>) \
+    X(std::pair<std::array<std::shared_ptr<Rec>, 2>, std::unique_ptr<std::array<std::shared_ptr<Rec>, 2>>>)
+
 // The menu of real C++ types.
 
 #define SERIAL_MENU(X) \
@@ -111,7 +215,8 @@ template <class T> void propType(Ctx& c, int reps) {
     X(std::map<std::string, std::unique_ptr<int>>) X(std::map<std::size_t, std::set<std::string>>) X(std::map<std::tuple<int, std::string>, int>) \
     X(std::unordered_map<std::string, double>) X(std::unordered_map<int, std::vector<std::string>>) X(std::unordered_map<std::string, std::map<std::string, int>>) \
     X(std::vector<std::map<std::string, int>>) X(std::array<std::set<int>, 2>) X(std::pair<std::set<int>, std::unique_ptr<std::map<int, int>>>) \
-    X(Rec) X(std::vector<Rec>) X(std::map<std::string, Rec>) X(std::optional<Rec>) X(std::unique_ptr<Rec>) X(Outer) X(std::vector<Outer>)
+    X(Rec) X(std::vector<Rec>) X(std::map<std::string, Rec>) X(std::optional<Rec>) X(std::unique_ptr<Rec>) X(Outer) X(std::vector<Outer>) \
+    X(Preset) X(std::vector<Preset>) X(std::map<int, Preset>)
 
 } // namespace
 
@@ -134,6 +239,10 @@ int main(int argc, char** argv) {
 #define X(...) corrType<__VA_ARGS__>(c, reps);
         SERIAL_MENU(X)
 #undef X
+        sink.emit("serial.gconsts", std::to_string(sizeof(std::uintptr_t)));
+#define X(...) corrGraph<__VA_ARGS__>(c, reps);
+        SERIAL_GRAPH_MENU(X)
+#undef X
         sink.writeStats(outdir + "/stats.json");
         return 0;
     }
@@ -145,7 +254,12 @@ int main(int argc, char** argv) {
 #define X(...) propType<__VA_ARGS__>(c, reps);
         SERIAL_MENU(X)
 #undef X
+#define X(...) propGraph<__VA_ARGS__>(c, reps);
+        SERIAL_GRAPH_MENU(X)
+#undef X
         so::runObjects(c.rng, plog, c.pstats, thorough, outdir);
+        sp::probeSlaveMode(c.rng, plog, c.pstats, thorough ? 60 : 6);
+        sp::probeRestartNetworkPressures(c.rng, plog, c.pstats, thorough ? 40 : 4, outdir);
         std::ofstream f(outdir + "/prop_stats.json");
         f << "{\n  \"checked\": " << plog.checked << ",\n  \"failed\": " << plog.failed;
         for (auto& kv : c.pstats) f << ",\n  \"" << kv.first << "\": " << kv.second;
